@@ -17,9 +17,9 @@
 
 #define sexp_hash_resize_check(n, len) (((n)*3) > ((len)>>2))
 
-static sexp_uint_t string_hash (char *str, sexp_uint_t bound) {
-  sexp_uint_t acc = FNV_OFFSET_BASIS;
-  while (*str) {acc *= FNV_PRIME; acc ^= *str++;}
+static sexp_uint_t string_hash (char *str, sexp_uint_t len, sexp_uint_t bound) {
+  sexp_uint_t acc = FNV_OFFSET_BASIS, i;
+  for (i=0; i<len; i++) {acc *= FNV_PRIME; acc ^= str[i];}
   return acc % bound;
 }
 
@@ -29,12 +29,13 @@ sexp sexp_string_hash (sexp ctx, sexp self, sexp_sint_t n, sexp str, sexp bound)
   else if (! sexp_fixnump(bound))
     return sexp_type_exception(ctx, self, SEXP_FIXNUM, bound);
   return sexp_make_fixnum(string_hash(sexp_string_data(str),
+                                      sexp_string_size(str),
                                       sexp_unbox_fixnum(bound)));
 }
 
-static sexp_uint_t string_ci_hash (char *str, sexp_uint_t bound) {
-  sexp_uint_t acc = FNV_OFFSET_BASIS;
-  while (*str) {acc *= FNV_PRIME; acc ^= sexp_tolower((unsigned char)*str++);}
+static sexp_uint_t string_ci_hash (char *str, sexp_uint_t len, sexp_uint_t bound) {
+  sexp_uint_t acc = FNV_OFFSET_BASIS, i;
+  for (i=0; i<len; i++) {acc *= FNV_PRIME; acc ^= sexp_tolower((unsigned char)str[i]);}
   return acc % bound;
 }
 
@@ -44,6 +45,7 @@ sexp sexp_string_ci_hash (sexp ctx, sexp self, sexp_sint_t n, sexp str, sexp bou
   else if (! sexp_fixnump(bound))
     return sexp_type_exception(ctx, self, SEXP_FIXNUM, bound);
   return sexp_make_fixnum(string_ci_hash(sexp_string_data(str),
+                                         sexp_string_size(str),
                                          sexp_unbox_fixnum(bound)));
 }
 
